@@ -1,5 +1,5 @@
 (* Properties/C14.v — credentials go where the security scheme says, read from documented env vars. *)
-From LN Require Import Model.Emit Proofs.EmitP.
+From LN Require Import Model.Emit Sem.Request Proofs.EmitP.
 
 (* every request module passes the request through `authenticate` iff the document declares security *)
 Theorem C14_every_request : forall h cfg o c, request_file h cfg o = Ok c ->
@@ -58,3 +58,20 @@ Theorem C14_nonvacuous :
   extract_key_location PHeader (lit "X-API-Key") = AHeader (lit "X-API-Key").
 Proof. vm_compute. split; reflexivity. Qed.
 Print Assumptions C14_nonvacuous.
+
+(* the semantic summary the executed requests are compared with (Sem/Request.v auth_plan_of): a from_env client adds
+   exactly the fields of the FIRST strategy, each from <SERVICE>_<NAME>, basic credentials base64-encoded, at the place
+   its location names; nothing when no security is declared *)
+Theorem C14_auth_plan_first : forall h cfg name fields rest, h_security h = AuthToken name fields :: rest ->
+  auth_plan_of h cfg =
+  APFields (map (fun fl => (place_of (snd fl),
+                            match snd fl with
+                            | ABasic => CBase64 (qualified_env_var (c_name cfg) (fst fl))
+                            | _ => CPlain (qualified_env_var (c_name cfg) (fst fl))
+                            end)) fields).
+Proof. intros h cfg name fields rest H. unfold auth_plan_of. rewrite H. reflexivity. Qed.
+Print Assumptions C14_auth_plan_first.
+
+Theorem C14_auth_plan_none : forall h cfg, h_security h = [] -> auth_plan_of h cfg = APNone.
+Proof. intros h cfg H. unfold auth_plan_of. rewrite H. reflexivity. Qed.
+Print Assumptions C14_auth_plan_none.
